@@ -27,7 +27,7 @@ pub const TOKENS_FULL: &[&str] = &[
     "0", "1", "4294967295", "4294967296", "0x0", "0XFF", "0xFFFFFFFF", "0xffffffffffffffffff", "1_0", "1_", "_1", "1e400",
     "1.", ".5", "1e", "-0", "+1", D40,
     // strings
-    "\"a\"", "\"aaaaa-aa\"", "\"\\u{10FFFF}\"", "\"\\u{110000}\"", "\"\\u{D800}\"", "\"\\xx\"", "\"\\ff\"", "\"\\\"", "\"a",
+    "\"a\"", "\"\"", "\"aaaaa-aa\"", "\"\\u{10FFFF}\"", "\"\\u{110000}\"", "\"\\u{D800}\"", "\"\\xx\"", "\"\\ff\"", "\"\\\"", "\"a",
     "\"\\u{",
     // comments
     "// x", "/* x */", "/*", "/* /* */ */",
@@ -66,6 +66,12 @@ pub const SEEDS: &[&[&str]] = &[
     &["type", "s", "=", "service", "{", "m", ":", "(", ")", "->", "(", ")", "}", ";", "type", "t", "=", "opt", "s", ";", "service", ":", "t"],
     &["type", "a", "=", "record", "{", "x", ":", "o", "}", ";", "type", "o", "=", "opt", "nat", ";", "type", "s", "=", "service", "{", "p", ":", "o", "}", ";", "service", ":", "s"],
     &["type", "a", "=", "nat", ";", "type", "a", "=", "text", ";", "service", ":", "(", "a", ",", "b", ")", "->", "{", "}"],
+    // ---- the empty quoted string in every position a name can occupy
+    &["type", "t", "=", "record", "{", "\"\"", ":", "nat", ";", "\"\"", ":", "text", "}", ";", "service", ":", "(", "\"\"", ":", "t", ")", "->", "{", "\"\"", ":", "(", "\"\"", ":", "nat", ")", "->", "(", "\"\"", ":", "t", ")", "}"],
+    &["func", "(", "\"\"", ":", "nat", ",", "a", ":", "text", ")", "->", "(", "\"\"", ":", "variant", "{", "\"\"", "}", ")"],
+    &["(", "\"\"", ":", "nat", ",", "text", ")"],
+    &["(", "record", "{", "\"\"", "=", "1", "}", ",", "variant", "{", "\"\"", "=", "\"\"", "}", ",", "func", "\"aaaaa-aa\"", ".", "\"\"", ",", "\"\"", ":", "text", ")"],
+    &["assert", "blob", "\"\"", ":", "(", "\"\"", ":", "nat", ")", "\"\"", ";"],
     // ---- types
     &["opt", "vec", "record", "{", "a", ":", "variant", "{", "b", ":", "func", "(", ")", "->", "(", ")", ";", "c", "}", ";", "1", ":", "service", "{", "}", "}"],
     &["record", "{", "nat", ";", "5", ":", "text", ";", "bool", "}"],
@@ -171,6 +177,30 @@ pub fn escapes() -> &'static Vec<String> {
         v.dedup();
         v
     })
+}
+
+// ---- (viii) long string literals of multi-byte characters whose annotation does not fit: error messages
+// that quote (and possibly abbreviate) the value must not cut inside a character
+pub const LONG_UNITS: &[&str] = &["a", "é", "€", "😀"];
+pub const LONG_SHAPES: &[&str] = &["( \"@\" : nat )", "\"@\" : bool", "( opt \"@\" : opt int )", "( record { a = \"@\" } : record { a : nat8 } )", "( vec { \"@\" } : vec principal )", "( \"@\" )"];
+/// total character counts: every count 1..=40, then every count whose byte length crosses 60..=260 in steps small
+/// enough that each byte offset modulo the character width occurs (ASCII prefix of 0..3 characters)
+pub fn long_counts() -> Vec<usize> {
+    let mut v: Vec<usize> = (1..=40).collect();
+    v.extend((41..=140).step_by(1));
+    v
+}
+pub fn long_size() -> u64 {
+    (LONG_UNITS.len() * LONG_SHAPES.len() * long_counts().len() * 4) as u64
+}
+pub fn long_input(idx: u64) -> String {
+    let idx = idx as usize;
+    let nc = long_counts().len();
+    let pre = idx % 4;
+    let cnt = long_counts()[(idx / 4) % nc];
+    let unit = LONG_UNITS[(idx / 4 / nc) % LONG_UNITS.len()];
+    let shape = LONG_SHAPES[idx / 4 / nc / LONG_UNITS.len()];
+    shape.replace('@', &format!("{}{}", "x".repeat(pre), unit.repeat(cnt)))
 }
 
 // ---- (iv) nesting
@@ -361,6 +391,7 @@ pub enum Family {
     NestP,
     Quar,
     Esc,
+    Long,
     Lit(String),
 }
 
@@ -401,6 +432,7 @@ impl Family {
             "nest" => Some(Family::Nest),
             "quar" => Some(Family::Quar),
             "esc" => Some(Family::Esc),
+            "long" => Some(Family::Long),
             "lit" => {
                 let b = hex::decode(parts.get(1)?).ok()?;
                 Some(Family::Lit(String::from_utf8(b).ok()?))
@@ -419,6 +451,7 @@ impl Family {
             Family::Nest => nest_templates().len() as u64 * NEST_DEPTH,
             Family::Quar => QUAR.len() as u64,
             Family::Esc => (ESC_CONTEXTS.len() * escapes().len()) as u64,
+            Family::Long => long_size(),
             Family::Lit(_) => 1,
         }
     }
@@ -457,6 +490,7 @@ impl Family {
                 let nc = ESC_CONTEXTS.len() as u64;
                 ESC_CONTEXTS[(idx % nc) as usize].replace('@', &escapes()[(idx / nc) as usize])
             }
+            Family::Long => long_input(idx),
             Family::Lit(s) => s.clone(),
         }
     }
@@ -480,7 +514,7 @@ pub fn fingerprint() -> String {
         fnv(&mut h, e.as_bytes());
         fnv(&mut h, &[0]);
     }
-    for set in [TOKENS_FULL, TOKENS_CORE, ANN_SIGNS, ANN_NUMS, ANN_TYPES, QUAR, ESC_CONTEXTS] {
+    for set in [TOKENS_FULL, TOKENS_CORE, ANN_SIGNS, ANN_NUMS, ANN_TYPES, QUAR, ESC_CONTEXTS, LONG_UNITS, LONG_SHAPES] {
         for t in set {
             fnv(&mut h, t.as_bytes());
             fnv(&mut h, &[0]);
